@@ -137,4 +137,66 @@ theorem canon_stable [DecidableEq K] [DecidableEq V] (good : K → V → Prop) (
     ((∃ t ∈ (run c1 c sched).thr, t.ph k = .canon) → (run c1 c sched).heap k = c1 k) :=
   ⟨(inv_all_schedules good c1 hc1 sched c h).1 k, (inv_all_schedules good c1 hc1 sched c h).2.2 k⟩
 
+/-- more knowledge (more cells in phase `canon`) never hurts -/
+theorem Safe.mono [DecidableEq K] {good : K → V → Prop} {c1 : K → V} {acc : R → Prop} {p : Prog K V R}
+    {ph : Phases K} (h : Safe good c1 acc ph p) :
+    ∀ ph' : Phases K, (∀ k, ph k = .canon → ph' k = .canon) → Safe good c1 acc ph' p := by
+  induction h with
+  | ret ha => intro ph' _; exact Safe.ret ha
+  | @read ph k cont hany hcan ih1 ih2 =>
+    intro ph' hle
+    apply Safe.read
+    · intro hph v hg hne
+      have : ph k = .any := by
+        cases hk : ph k with
+        | any => rfl
+        | canon => rw [hle k hk] at hph; cases hph
+      exact ih1 this v hg hne ph' hle
+    · apply ih2
+      intro k' hk'
+      by_cases hkk : k' = k
+      · subst hkk; exact Phases.set_self _ _
+      · rw [Phases.set_other _ hkk] at hk' ⊢; exact hle k' hk'
+  | @write ph k cont hk ih =>
+    intro ph' hle
+    apply Safe.write
+    apply ih
+    intro k' hk'
+    by_cases hkk : k' = k
+    · subst hkk; exact Phases.set_self _ _
+    · rw [Phases.set_other _ hkk] at hk' ⊢; exact hle k' hk'
+
+/-- **composition**: if `p` is safe and every accepted result is continued safely (whatever has become canonical in
+between), then `p ; K` is safe -/
+theorem Safe.bind [DecidableEq K] {S : Type} {good : K → V → Prop} {c1 : K → V} {acc : R → Prop} {acc' : S → Prop}
+    {p : Prog K V R} {ph : Phases K} (h : Safe good c1 acc ph p) (f : R → Prog K V S)
+    (hf : ∀ r (ph' : Phases K), acc r → (∀ k, ph k = .canon → ph' k = .canon) → Safe good c1 acc' ph' (f r)) :
+    Safe good c1 acc' ph (p.bind f) := by
+  induction h with
+  | ret ha => exact hf _ _ ha (fun _ h => h)
+  | @read ph k cont hany hcan ih1 ih2 =>
+    simp only [Prog.bind]
+    apply Safe.read
+    · intro hph v hg hne
+      exact ih1 hph v hg hne hf
+    · apply ih2
+      intro r ph' ha hle
+      apply hf r ph' ha
+      intro k' hk'
+      apply hle
+      by_cases hkk : k' = k
+      · subst hkk; exact Phases.set_self _ _
+      · rw [Phases.set_other _ hkk]; exact hk'
+  | @write ph k cont hk ih =>
+    simp only [Prog.bind]
+    apply Safe.write
+    apply ih
+    intro r ph' ha hle
+    apply hf r ph' ha
+    intro k' hk'
+    apply hle
+    by_cases hkk : k' = k
+    · subst hkk; exact Phases.set_self _ _
+    · rw [Phases.set_other _ hkk]; exact hk'
+
 end Threads
